@@ -267,7 +267,6 @@ impl TerminalRenderer {
     pub fn frame<T: Terminal + ?Sized>(&mut self, term: &mut T) -> Result<(), Error> {
         // clear hoisted locals
         self.images.clear();
-        self.marks.fill(CellMark::Empty);
 
         // First pass
         //
@@ -425,6 +424,9 @@ impl TerminalRenderer {
         self.frame_count += 1;
         std::mem::swap(&mut self.front, &mut self.back);
         self.front.clear();
+        // NOTE: marks are reset at the end of the frame (and not at the beginning)
+        //       so damage requested with `clear` or `new(.., true)` is not lost.
+        self.marks.fill(CellMark::Empty);
 
         Ok(())
     }
